@@ -166,6 +166,28 @@ def literal_precision(ctx):
             ctx.violation("failing-input", f"float literal {x!r} is not kept to 15 significant digits", {"expression_srepr": sympy.srepr(e), "printed": s}, got, x)
             return
         ctx.nontrivial("literal:" + s)
+    # exact constants of every sign and magnitude, written as expressions: what `as_native` / `value_of` (the numbers that end up
+    # in exported documents and evaluated routines) make of them must keep 15 significant digits
+    from fractions import Fraction as Fr
+
+    for sign in (1, -1):
+        for p10 in (0, 3, 9, 12, 16, 40, -3, -12):
+            for num, den in ((1, 3), (7, 3), (2, 7), (22, 7)):
+                exact = Fr(sign * num, den) / Fr(10) ** p10 if p10 >= 0 else Fr(sign * num, den) * Fr(10) ** (-p10)
+                txt = f"{'-' if sign < 0 else ''}{num}/({den}*10^{p10})" if p10 >= 0 else f"{'-' if sign < 0 else ''}{num}*10^{-p10}/{den}"
+                with warnings.catch_warnings():
+                    warnings.simplefilter("ignore")
+                    e = B.as_expression(txt)
+                for how, val in (("value_of", B.value_of(e)), ("as_native", B.as_native(e))):
+                    ctx.stats["evaluations"] += 1
+                    if not isinstance(val, (int, float)):
+                        continue
+                    err = abs(Fr(val) - exact)
+                    if err > abs(exact) * Fr(1, 10**14):
+                        ctx.violation("failing-input", f"{how} of the exact constant {txt} does not keep 15 significant digits", {"expression": txt, "through": how},
+                                      repr(val), float(exact))
+                        return
+                ctx.nontrivial("constant:" + txt)
 
 
 def generated(ctx):
